@@ -82,6 +82,16 @@ fn programs() -> Vec<Program> {
     v.push(mk("shutdown || put(b) || delete(a)", 1, vec![put(1, 2)], vec![vec![Op::Shutdown], vec![put(2, 2)], vec![del(1)]]));
     v.push(mk("shutdown;shutdown || put(b);put(c)", 1, vec![put(1, 2)], vec![vec![Op::Shutdown, Op::Shutdown], vec![put(2, 2), put(3, 2)]]));
     v.push(mk("shutdown || multi_get([a,b]);get_ref(a)", 2, vec![put(1, 2), put(2, 2)], vec![vec![Op::Shutdown], vec![Op::MultiRead { keys: vec![1, 2], variant: ReadVariant::MultiGetIterator }, Op::Read { k: 1, variant: ReadVariant::GetRef }]]));
+    // a configured weight function that makes every pair heavier than the cache: after shutdown a put without an explicit
+    // weight is refused like any other write (not answered "too heavy")
+    {
+        let mut p = mk("shutdown || put_with_weight(b) ; weight function heavier than the cache", 1, vec![put(1, 2)], vec![vec![Op::Shutdown], vec![put(2, 2)]]);
+        p.setup.weight_fn = WeightFn::Const { c: 500, ttl_extra: 0 };
+        p.post = vec![Op::Put { k: 3, w: None, ttl_ms: None }, Op::Put { k: 3, w: None, ttl_ms: Some(1000) }, put(4, 2), Op::Upsert { k: 5, value: true, w: None, ttl_ms: None, remove_ttl: false }, Op::ReadAll { keys: vec![1, 2] }];
+        v.push(p);
+    }
+    // more writers blocked on the full queue (size 1) than the queue holds: every one of their commands is answered
+    v.push(mk("shutdown || put(b);put(c) || delete(a) (queue 1)", 1, vec![put(1, 2)], vec![vec![Op::Shutdown], vec![put(2, 2), put(3, 2)], vec![del(1)]]));
     // an iterator created before the shutdown and drained across it, while a put queued ahead of the Shutdown command
     // lands after the store was cleared
     v.push(mk("shutdown || put(b) || multi_get_iterator([b,b,b])", 2, vec![put(1, 2)], vec![vec![Op::Shutdown], vec![put(2, 2)], vec![Op::MultiRead { keys: vec![2, 2, 2], variant: ReadVariant::MultiGetIterator }]]));
